@@ -127,9 +127,10 @@ def convert_unit(M, fmt, mn, mx, step, kind, lo, hi):
                     ex.require(abs(R - (off + kk * st)) <= T, "convert: result lies on the step grid (to six significant digits)")
                 d = abs(R - C)
                 ex.require(d * 2 <= st + T * 2, "convert: result is a grid point nearest to the clamped input")
-                if integer_exact and decide(C - off >= 0) and decide(d * 2 == st):
+                if decide(C - off >= 0) and decide(abs(((C - off) / st) * 2 - rhu(((C - off) / st) * 2)) == 0) and not decide(is_int((C - off) / st)):
+                    # the clamped input is exactly half way between two grid points
                     ex.tag("exact-tie")
-                    ex.require(R >= C, "convert: an exact tie goes upward")
+                    ex.require(R >= C - T, "convert: an exact tie goes upward")
                 on_grid = mx is not None and (F(mx) - F(mn if mn is not None else 0)) % F(step) == 0
                 if on_grid:
                     ex.require(R <= mk(sym, mx) + T, "convert: result within the range (maximum is on the grid)")
@@ -238,7 +239,8 @@ def configs(tier):
     cfg = []
     # (fmt, min, max, step, kind, lo, hi)
     if tier == "canary":
-        return [("uint8", 0, 100, 1, "int", -50, 300), ("float", 10, 38, "0.5", "dec", -5, 50), ("uint32", 0, 2 ** 32 - 1, 1, "int", 0, 2 ** 32)]
+        return [("uint8", 0, 100, 1, "int", -50, 300), ("uint8", 0, 100, 2, "int", -50, 300), ("uint8", 1, 100, 3, "int", -10, 200),
+                ("float", 10, 38, "0.5", "dec", -5, 50), ("uint32", 0, 2 ** 32 - 1, 1, "int", 0, 2 ** 32)]
     big = 2 ** 64
     cfg += [("uint8", 0, 100, 1, "int", -1000, 1000), ("uint8", 0, 255, 5, "int", -1000, 1000), ("uint8", None, None, None, "int", 0, 255),
             ("uint8", 0, 100, None, "int", -300, 300), ("uint8", 1, 100, 3, "int", -10, 200), ("uint8", 0, 100, 1, "dec", -5, 120)]
